@@ -111,6 +111,37 @@ def one(ctx, S, coef, parity, crit, maxiter, force_form=None):
             ctx.violation("c13:convergence", "solver did not stop by its criterion within 30 iterations (err %.3e, iter %d)" % (float(err), it), replay)
             return
     if converged and ccrit <= 1e-12:
+        # gross deviations first (binary64 screen, then an EXACT witness): the continuum certificate is slow to reject a
+        # grossly wrong answer, an exact point is quicker and is a better replay
+        xs = np.cos(np.linspace(0, math.pi, 401 if len(full) <= 40 else 101))
+        H_ = np.array([[1, 1], [1, -1]]) / math.sqrt(2)
+        dev, wa = 0.0, None
+        cc = np.zeros(2 * len(coef) + 2)
+        for j, c in enumerate(coef):
+            cc[2 * j + parity] = c
+        for x in xs:
+            U = H_ @ P.float_resp_wz(full, float(x)) @ H_
+            dd = abs(U[0, 0].imag - float(np.polynomial.chebyshev.chebval(x, cc)))
+            if dd > dev:
+                dev, wa = dd, float(x)
+        if dev > 1e-8:
+            a = Fraction(wa).limit_denominator(1 << 40)
+            mo3 = d.ask("resp Wx z %d %s %s" % (P.BITS, rs(a), rl(core.redphase(F(x)) for x in full)))
+            if not mo3.startswith("err:"):
+                val, e3 = mo3.split()
+                _, mi = core.pcx(val)
+                t0, t1 = Fraction(1), a                      # exact Chebyshev recurrence for the target series
+                tv = Fraction(0)
+                for k_ in range(2 * len(coef) + 1):
+                    if k_ % 2 == parity and k_ // 2 < len(coef):
+                        tv += F(coef[k_ // 2]) * t0
+                    t0, t1 = t1, 2 * a * t1 - t0
+                low = abs(mi - tv) - pr(e3)
+                if low > Fraction(1, 10 ** 10):
+                    replay.update({"full_phases": full, "witness": {"a": str(a), "Im_defined_response": core.fl(mi), "target": core.fl(tv), "proven_lower_bound_of_deviation": core.fl(low)}})
+                    ctx.count("gross-deviation:exact-witness")
+                    ctx.violation("c13:response", "Im<0|U(a)|0> of the returned protocol differs from the target series by more than 1e-10 (exact witness point)", replay)
+                    return
         line = d.ask("valid.c13 %d %d %s %d %s %s" % (P.BITS, P.DEPTH, rs(Fraction(1, 10 ** 10)), parity, rl(F(c) for c in coef), rl(F(x) for x in full)))
         v = P.vparse(line)
         if v.get("err"):
